@@ -117,6 +117,33 @@ impl NamespaceStates {
         state.finish(origin, result)
     }
 
+    /// Our sync request was declined by the remote with [`AbortReason::AlreadySyncing`].
+    ///
+    /// If the slot is still occupied by that request, it is freed: nothing else is going to finish
+    /// it. If we accepted a request from the remote in the meantime, that session owns the slot
+    /// and nothing changes.
+    ///
+    /// Returns `Some(resync)` if the slot was freed, where `resync` is true if another sync request
+    /// should be triggered right afterwards.
+    pub fn abort_connect(
+        &mut self,
+        namespace: &NamespaceId,
+        node: EndpointId,
+        reason: SyncReason,
+    ) -> Option<bool> {
+        let state = self.entry(namespace, node)?;
+        match &state.state {
+            SyncState::Running {
+                origin: Origin::Connect(running),
+                ..
+            } if *running == reason => {
+                state.state = SyncState::Idle;
+                Some(std::mem::take(&mut state.resync_requested))
+            }
+            _ => None,
+        }
+    }
+
     /// Set whether a [`super::live::Event::PendingContentReady`] may be emitted once the pending queue
     /// becomes empty.
     ///
